@@ -42,7 +42,7 @@ func init() { Register("server", serverHarness) }
 
 func serverHarness(rc *RunCtx) {
 	tp := rc.Tape
-	s := rc.NewSim(60000, 10*time.Minute)
+	s := rc.NewSim(rc.Scale(60000, 200000), 10*time.Minute)
 	env := &e2eEnv{rc: rc, s: s, plans: map[string]*callPlan{}}
 	env.proto = []string{"binary", "compact", "json"}[tp.Intn("cfg", 3)]
 	env.pf = frugal.NewFProtocolFactory(protoFactory(env.proto))
@@ -61,7 +61,7 @@ func serverHarness(rc *RunCtx) {
 	key := setting + "/" + env.proto
 
 	nConns := 1 + tp.Intn("cfg", 3)
-	nReq := 2 + tp.Intn("cfg", 10)
+	nReq := 2 + tp.Intn("cfg", rc.Scale(10, 30))
 	rc.Sample["requests"] = nReq
 	var reqs []*rawReq
 	byOpid := map[string]*rawReq{}
